@@ -199,7 +199,9 @@ VI(root, S0, v, D) ==
                                  IF ~p.req /\ p.s.k = "nullable" /\ v.m[i][2].t = "null" THEN ~("Dev_NullEmptyStructRefused" \in D /\ IsEmptyStruct(p.s.s)) /\ ("Dev_NullableEnumAcceptsNull" \in D \/ NullListed(p.s.s)) ELSE VI(root, p.s, v.m[i][2], D)
                             ELSE IF S0.addl.k = "addl_true" THEN TRUE ELSE IF S0.addl.k = "addl_false" THEN FALSE ELSE VI(root, S0.addl, v.m[i][2], D)
                        \* (C04) members the type drops were counted when the value was read
-                       /\ (("Dev_DroppedMembersCounted" \in D /\ S0.addl.k = "addl_true") \/ Len(v.m) >= S0.minP) /\ (S0.maxP # NONE => Len(v.m) <= S0.maxP)
+                       \* (C04, built values) the member count is checked when a value is read, not by Validate
+                       /\ \/ "Dev_PropertyCountNotInValidate" \in D
+                          \/ (("Dev_DroppedMembersCounted" \in D /\ S0.addl.k = "addl_true") \/ Len(v.m) >= S0.minP) /\ (S0.maxP # NONE => Len(v.m) <= S0.maxP)
     [] S0.k = "allOf" -> \A i \in 1..Len(S0.ss) : VI(root, S0.ss[i], v, D)
     [] S0.k = "anyOf" -> \E i \in 1..Len(S0.ss) : VI(root, S0.ss[i], v, D)
     [] S0.k = "oneOf" -> LET exact == Cardinality({i \in 1..Len(S0.ss) : VI(root, S0.ss[i], v, D)}) = 1
